@@ -245,7 +245,8 @@ def run(ctx):
             continue
         rng = ctx.rng("doc", i)
         rng.seed("C02|%s|doc|%d" % (ctx.seed, i))
-        spec = gen.gen_doc(rng, max_nodes=rng.choice([4, 10, 25]), hostile=rng.choice([0.1, 0.5, 0.8]))
+        spec = gen.gen_doc(rng, max_nodes=rng.choice([4, 10, 25] if ctx.quick() else [4, 10, 25, 60, 200]),
+                           depth=rng.choice([3, 3, 5]), hostile=rng.choice([0.1, 0.5, 0.8]), links=True)
         case = {"kind": "generated", "spec": enc(spec), "i": i}
         if i < 6:
             rec.sample({"nodes": gen.count_nodes(spec), "first_section": enc(no_ids(spec["sections"][0]))
